@@ -1,10 +1,10 @@
 #!/bin/bash
 # tools/run_seed_wt.sh <seeded-dir> <check id> [...]   — like run_seed.sh but against the scratch worktree
-# /tmp/wt-seedtest through VERIF_REPO (only for checks whose modules honour VERIF_REPO; /repo stays untouched,
+# ${WT:-/tmp/wt-seed2} through VERIF_REPO (only for checks whose modules honour VERIF_REPO; /repo stays untouched,
 # so other sessions working on /repo are not disturbed).
 set -u
 d="$1"; shift
-WT=/tmp/wt-seedtest
+WT=${WT:-/tmp/wt-seed2}
 cd /verif
 [ -d $WT ] || git -C /repo worktree add -q $WT HEAD
 git -C $WT checkout -q -f --detach "$(git -C /repo rev-parse HEAD)"
